@@ -7,8 +7,8 @@ Request line:  `<op> <op> …` with `<op>` = `r:<slot>:<alog>:<new>` | `d:<slot>
 Answer line:   the model's observations in the harness's answer format (model run against the lawful
                bump allocator), then — when the implementation's answer was supplied —
                `\tspec=ok` or `\tspec=fail:<class>@<op index>[,…]`: the C24 monitor `ReallocSpec.stepOk`
-               evaluated on the IMPLEMENTATION's observations (classes: `shrink-to-zero` = a request
-               outside the documented precondition did not return; `monitor` = anything else;
+               evaluated on the IMPLEMENTATION's observations (classes: `shrink-to-zero` = the REQUEST is
+               outside the precondition `cabi_realloc` documents — an input error of the caller, not judged; `monitor` = anything else;
                `end` = end-of-history clause; `malformed`). -/
 open Witverif.Text.Realloc Witverif.Text.ReallocSpec Drivers
 
